@@ -31,7 +31,9 @@ REGISTRY = {
             'every member of the API surface is analysed or explicitly declared outside. Dynamic tie: every API member is called on '
             'a dozen annotation shapes with all modification kinds; arguments, random.getstate() and the EntryDb maps are '
             'snapshotted around every call, every returned container/annotation is edited and the arguments re-snapshotted, '
-            'history independence is run exhaustively over ordered pairs and randomly over triples; the set of functions observed '
+            'history independence is run exhaustively over ordered pairs and randomly over triples (str-accepting functions get the '
+            'same string object in every call, the caller edits every returned container between calls, one Fragmenter object '
+            'is driven through pairs/triples of .fragment calls); memoised functions are modelled as handing out process-wide objects; the set of functions observed '
             'writing an argument, and the set of functions whose result was observed sharing state with an argument, must be '
             'contained in the sets the Lean analysis flags',
     'note': 'trusted: Lean kernel; the translator\'s classification of Python statements into IR statements (which method names '
